@@ -134,10 +134,10 @@ theorem edc_spec (T : TypeTable) (p : Particle) : edcCheck T p = true ↔ EDC T 
 
 /-- An accepted model has no two (visited) element particles with the same name and different types:
     the EDC clause "two same-named elements have different types ⇒ the build fails", for both XSD
-    versions, every shape and size of model.  (`leafPaths` are the particles `check_model` visits,
+    versions, every shape and size of model.  (`M.visited p` are the particles `check_model` visits,
     i.e. those not below a `maxOccurs = 0` item.) -/
 theorem checkModel_accepts_edc_direct (M : Ctx) (p : Particle) (h : M.accepts p = true) :
-    ∀ v1 ∈ (p.leafPaths []).map (·.1), ∀ v2 ∈ (p.leafPaths []).map (·.1),
+    ∀ v1 ∈ (M.visited p).map (·.1), ∀ v2 ∈ (M.visited p).map (·.1),
       M.isElem v1 = true → M.isElem v2 = true →
       (M.info v1).name = (M.info v2).name → (M.info v1).ty = (M.info v2).ty :=
   accepts_edc_direct M p h
@@ -200,6 +200,9 @@ theorem checkModel_false_alarm_root_counterexample :
     (ctxOf false 3 pRoot0 iMissed).accepts pRoot0 = false ∧ UPA [qa] false pRoot0 := by
   refine ⟨by decide, upa_of_isCert _ _ _ 10 (by decide)⟩
 
+/-- with the proposed repair (notes/fixes/C15-root-maxoccurs-zero.patch) the same model is accepted -/
+example : ({ ctxOf false 3 pRoot0 iMissed with skipEmptyRoot := true }).accepts pRoot0 = true := by decide
+
 /-- `(h, s)` with `s` a *local* declaration of another type than the global `s` that substitutes `h` -/
 def pEdc : Particle :=
   .group 0 .seq 1 (some 1) (.cons (.leaf (.elem 1 [qh, qs]) 1 (some 1)) (.cons (.leaf (.elem 2 [qs]) 1 (some 1)) .nil))
@@ -238,6 +241,6 @@ example : ¬ UPA [qa] false pPrec ∧ UPA [qa] true pPrec :=
 
 /-- the hypotheses of `checkModel_accepts_edc_direct` are met by a model with two same-named elements -/
 example : (ctxOf false 4 pOk [(1, { name := qa, ty := 0 }), (2, { name := qb, ty := 0 }), (3, { name := qa, ty := 0 })]).accepts pOk = true ∧
-    (1 ∈ (pOk.leafPaths []).map (·.1) ∧ 3 ∈ (pOk.leafPaths []).map (·.1)) := by decide
+    (1 ∈ ((ctxOf false 4 pOk []).visited pOk).map (·.1) ∧ 3 ∈ ((ctxOf false 4 pOk []).visited pOk).map (·.1)) := by decide
 
 end XsVerif.Props.C15
